@@ -42,16 +42,18 @@ CHECKS = {
         note='FileGenerator count clause deliberately weak (DESIGN 4.6). Files without a particle table are outside the '
              'domain. Trusted: TLC, driver projection.'),
     'C06': dict(
-        spec='FuncSignal.tla', design='4.2',
+        spec='FuncSignal.tla + LazyObj.tla', design='4.2',
         text='FuncSignal.tla models a function-backed signal as its definition (grid + components with offset, buffers, '
              'factor, product of delay/gain filters) plus the lazy cache, with each public operation clearing the cache '
              'exactly where the code does; TLC checks NoStale, ReadIsEager and Independent over all interleavings of reads '
              'with 12 operations up to depth 5 (2 objects); the level-4 graph and depth-16 simulations are executed on '
              'FunctionSignal and on FullThermalNoise / AskaryanSignal shadows, every read compared with the spec value '
-             'and with a fresh copy.',
+             'and with a fresh copy.  LazyObj.tla behaviours are replayed on real tracers and paths; in the simulations a second, '
+             'eagerly read real object receives the same operations and has every property group compared with a fresh '
+             'object after every step (caches are then always filled when the next mutation arrives).',
         note='Filters restricted to integer-sample delays with integer gains (exact shift of the zero-padded FFT filter). '
-             'Ray tracer / ray path objects (LazyObj) are covered through the tracer drivers of C02/C18 when built; '
-             'until then the check decides the signal half of the property only.'),
+             'Ray tracer / ray path objects: LazyObj.tla (attributes, property groups, cache) on four tracer kinds and three path '
+             'kinds; re-used tracer objects are additionally exercised in C01 / C02.'),
     'C01': dict(
         spec='RayRel.tla (extends RaySymmetry.tla)', design='12.5',
         technique='TLA+ relation-algebra spec RayRel.tla (endpoint group of RaySymmetry.tla extended with the scaling law of '
